@@ -50,6 +50,10 @@ func runC10(c *an.Ctx) {
 }
 
 // forwarders of pkg/resource: function -> its goroutine bodies.
+// forwarderOuter: the Pull function that starts each forwarding goroutine (a literal's parent, or the caller of a
+// named function started with `go f(…)`).
+var forwarderOuter = map[*ssa.Function]*ssa.Function{}
+
 func resourceForwarders(c *an.Ctx, rule string) map[string][]*ssa.Function {
 	out := map[string][]*ssa.Function{}
 	for _, t := range [][2]string{{"Value", "Pull"}, {"Collection", "Pull"}, {"Collection", "PullID"}} {
@@ -61,6 +65,7 @@ func resourceForwarders(c *an.Ctx, rule string) map[string][]*ssa.Function {
 		for _, g := range an.GoStmts(fn) {
 			if f := an.GoTarget(g); f != nil {
 				out[name] = append(out[name], f)
+				forwarderOuter[f] = fn
 				c.SawFunc(an.FuncName(f))
 			}
 		}
@@ -148,7 +153,7 @@ func r101(c *an.Ctx) {
 	fw := resourceForwarders(c, rule)
 	for _, name := range an.SortedKeys(fw) {
 		for _, g := range fw[name] {
-			outer := g.Parent()
+			outer := forwarderOuter[g]
 			n := 0
 			for _, s := range an.Sends(g) {
 				n++
